@@ -505,19 +505,21 @@ func c14Wide(c *config, r *rng) {
 	o := c.out
 	// printing twice in a row, first print of a constructed module: references to unnamed blocks of functions
 	// that are printed later (KF-39)
-	for variant := 0; variant < 4; variant++ {
+	for variant := 0; variant < 8; variant++ {
 		m := ir.NewModule()
 		early := m.NewFunc("early", types.NewPointer(types.I8))
 		f := m.NewFunc("f", types.Void, ir.NewParam("", types.I32))
 		e := f.NewBlock("")
-		for k := 0; k < variant; k++ {
+		for k := 0; k < variant%4; k++ {
 			e.NewAdd(f.Params[0], f.Params[0])
 		}
 		bb := f.NewBlock("")
 		e.NewBr(bb)
 		bb.NewRet(nil)
 		early.NewBlock("").NewRet(constant.NewBlockAddress(f, bb))
-		m.NewGlobalDef("g", constant.NewBlockAddress(f, bb))
+		if variant < 4 {
+			m.NewGlobalDef("g", constant.NewBlockAddress(f, bb)) // (variants 4..7: a module without any global variable)
+		}
 		var a, b string
 		oc, _ := guard(func() error { a = m.String(); b = m.String(); return nil })
 		if oc != ocOk || a != b {
